@@ -3,13 +3,16 @@ package main
 import (
 	"context"
 	"fmt"
+	"math/big"
 	"runtime"
+	"strings"
 	"sync"
 	"sync/atomic"
 
 	"github.com/formancehq/numscript"
 	"github.com/formancehq/numscript/verifharness/fw"
 	"github.com/formancehq/numscript/verifharness/gen"
+	"github.com/formancehq/numscript/verifharness/model"
 	"github.com/formancehq/numscript/verifharness/real"
 )
 
@@ -28,6 +31,44 @@ var bg = context.Background()
 
 func summarize(res numscript.ExecutionResult, err numscript.InterpreterError) string {
 	return real.Summarize(res, err)
+}
+
+// respelled gives the case's variables with other spellings of the same values: portions are
+// scaled (1/2 → 7/14, 50% → 50.000%), numbers and amounts get leading zeros.
+func respelled(cs *gen.Case, salt int) numscript.VariablesMap {
+	out := numscript.VariablesMap{}
+	for k, v := range cs.Vars {
+		out[k] = v
+	}
+	kf := int64(salt%9973 + 2)
+	zeros := strings.Repeat("0", salt%5+1)
+	for _, d := range cs.Script.Vars {
+		raw, ok := cs.Vars[d.Name]
+		if !ok {
+			continue
+		}
+		switch d.Type {
+		case "portion":
+			if n, dd, ok := model.ParseRatioText(raw); ok && dd.Sign() != 0 {
+				out[d.Name] = new(big.Int).Mul(n, big.NewInt(kf)).String() + "/" + new(big.Int).Mul(dd, big.NewInt(kf)).String()
+			} else if strings.HasSuffix(raw, "%") {
+				body := strings.TrimSuffix(raw, "%")
+				if !strings.Contains(body, ".") {
+					body += "."
+				}
+				out[d.Name] = body + strings.Repeat("0", salt%23+1) + "%"
+			}
+		case "number":
+			if !strings.HasPrefix(raw, "-") {
+				out[d.Name] = zeros + raw
+			}
+		case "monetary":
+			if i := strings.IndexByte(raw, ' '); i > 0 && !strings.HasPrefix(raw[i+1:], "-") {
+				out[d.Name] = raw[:i+1] + zeros + raw[i+1:]
+			}
+		}
+	}
+	return out
 }
 
 func renderVars(v map[string]string) string { return fmt.Sprint(v) }
@@ -177,7 +218,8 @@ func runC11(c *fw.Ctx) {
 			}
 		}
 		// ---- (iii) concurrency ----
-		shared := k%2 == 0 // stratum a: one StaticStore shared by all goroutines
+		respell := k%3 == 1 // every concurrent run gets equal-valued but differently spelled variable texts
+		shared := k%2 == 0  // stratum a: one StaticStore shared by all goroutines
 		sharedVars := numscript.VariablesMap{}
 		for k, v := range cs.Vars {
 			sharedVars[k] = v
@@ -221,8 +263,12 @@ func runC11(c *fw.Ctx) {
 						st = hs
 					}
 					var out string
+					vm := sharedVars
+					if respell {
+						vm = respelled(cs, g*1000+m+int(c.Seed%97)*100000+i*7)
+					}
 					p, v, fr := fw.Catch(func() {
-						res, err := po.Result.RunWithFeatureFlags(bg, sharedVars, st, flags)
+						res, err := po.Result.RunWithFeatureFlags(bg, vm, st, flags)
 						out = summarize(res, err)
 					})
 					mu.Lock()
@@ -240,6 +286,9 @@ func runC11(c *fw.Ctx) {
 		c.Evals(nG * nM)
 		c.Count("concurrent_runs", nG*nM)
 		c.Count("concurrent_goroutines_started", nG)
+		if respell {
+			c.Count("concurrent_runs_on_respelled_inputs", nG*nM)
+		}
 		if shared {
 			c.Count("static_store_shared_runs", nG*nM)
 		} else {
